@@ -543,7 +543,13 @@ class Emulsion(list):
         dist, index = tree.query(positions, 2)
 
         if subtract_radius:
-            return dist[:, 1] - self.data["radius"][index].sum(axis=1)  # type: ignore
+            # pick the closest neighbor that is not the droplet itself. Note that the
+            # droplet itself is not necessarily the first result (or even part of the
+            # result) when several droplets share the same position
+            own = np.arange(len(self))
+            neighbor = np.where(index[:, 0] == own, index[:, 1], index[:, 0])
+            radii = self.data["radius"]
+            return dist[:, 1] - radii - radii[neighbor]  # type: ignore
         else:
             return dist[:, 1]  # type: ignore
 
